@@ -16,7 +16,8 @@ from ..kernel import Violation, SimHang
 Counter = collections.Counter
 OP_BUDGET = 40000
 ALPHA = ['a', 'b', 'c', 'x1', 'a b', '']
-ALPHA17 = ['a', 'b', 'x1', 'class', 'a b', '1x', 'a.b', '', 'get2', 'c']
+ALPHA17 = ['a', 'b', 'x1', 'class', 'a b', '1x', 'a.b', '', 'get2', 'c',
+           '\u00e9t\u00e9', 'n\u00f1', 'None', 'd', 'e', 'f_g', 'handles', 'maps']
 SPLIT = '/'
 
 
@@ -133,7 +134,7 @@ class Interp:
                 'falsy': Falsy, 'bool_raises': BoolRaises,
                 'eq_true': EqTrue, 'eq_false': EqFalse,
                 'eq_raises': EqRaises, 'obj': object,
-                'world': d.World}[vcode]()
+                'world': d.World, 'via': object}[vcode]()
 
     def on_load(self, hid):
         st = self.h[hid]
@@ -142,10 +143,27 @@ class Interp:
         if st.attempts in st.fails:
             self.faults['load_raises'] += 1
             raise LoadFail(f'h{hid} load #{st.attempts}')
-        v = self.make_value(st.vcode)
+        if st.vcode == 'via':
+            v = self.nested_load(st)
+        else:
+            v = self.make_value(st.vcode)
         st.completed += 1
         st.last = v
         return v
+
+    def nested_load(self, st):
+        """A load that itself reaches another handle through the map."""
+        other = self.h.get(st.via)
+        path = self.path_of(st.via) if other is not None else None
+        if (other is None or path is None or other is st
+                or other.vcode == 'via'
+                or (not other.loaded and (other.attempts + 1) in other.fails)):
+            return ['via', None]
+        root = self.root.obj
+        self.probes['nested_load'] += 1
+        v = self.access(st.via, 'nested_load',
+                        lambda: root[SPLIT.join(path)])
+        return ['via', v]
 
     def access(self, hid, how, thunk):
         """One access to the resource of handle hid through path `how`."""
@@ -221,6 +239,7 @@ class Interp:
             if hid in self.h:
                 return None
             st = HState(hid, spec.get('val', 'obj'), spec.get('fails', []))
+            st.via = spec.get('via')
             st.obj = self.CountingHandle(hid)
             self.h[hid] = st
             return ('handle', st)
@@ -783,10 +802,14 @@ class GenState:
         else:
             val = rng.choice(['obj', 'obj', 'none', 'zero', 'list'])
             fails = []
+        spec = {'kind': 'handle', 'id': hid, 'val': val, 'fails': fails}
+        if self.prop == 'C12' and self.hids and rng.random() < .12:
+            spec['val'] = val = 'via'
+            spec['via'] = rng.choice(self.hids)
         self.hids.append(hid)
         if val == 'world':
             self.worlds.append(hid)
-        return {'kind': 'handle', 'id': hid, 'val': val, 'fails': fails}
+        return spec
 
     def map_spec(self, depth, prefix):
         rng = self.rng
@@ -938,7 +961,8 @@ PROBES = {
     'C12': ['falsy_value_reaccessed', 'path.call', 'path.getitem_root',
             'path.getitem_sub', 'path.getitem_chain', 'path.get_call',
             'path.static_attr', 'path.static_item', 'path.static_get',
-            'path.loop_switch', 'eq_raises_value', 'load_failed',
+            'path.loop_switch', 'path.nested_load', 'nested_load',
+            'eq_raises_value', 'load_failed',
             'load_failed_then_retry', 'clear_between_accesses'],
     'C17': ['non_identifier_name', 'layered_snapshot',
             'nested_setattr_rejected', 'setattr_rejected',
